@@ -1209,6 +1209,13 @@ func (a *Assembler) closeHalfConnection(conn *connection, half *halfconnection) 
 		a.pc.replace(p)
 		half.pages--
 	}
+	// Release the pages the stream asked to keep (KeepFrom): nothing will
+	// ever be delivered on this half anymore.
+	for p := half.saved; p != nil; p = next {
+		next = p.next
+		half.pages -= p.release(a.pc)
+	}
+	half.saved = nil
 
 	if conn.s2c.closed && conn.c2s.closed {
 		if half.stream.ReassemblyComplete(nil) { //FIXME: which context to pass ?
